@@ -298,12 +298,17 @@ func (mbox *MailboxView) Fetch(w *imapserver.FetchWriter, numSet imap.NumSet, op
 			return
 		}
 
+		clientSeqNum := mbox.tracker.EncodeSeqNum(seqNum)
+		if clientSeqNum == 0 {
+			return // the client hasn't been told about this message yet
+		}
+
 		if markSeen {
 			msg.flags[canonicalFlag(imap.FlagSeen)] = struct{}{}
 			mbox.Mailbox.tracker.QueueMessageFlags(seqNum, msg.uid, msg.flagList(), nil)
 		}
 
-		respWriter := w.CreateMessage(mbox.tracker.EncodeSeqNum(seqNum))
+		respWriter := w.CreateMessage(clientSeqNum)
 		err = msg.fetch(respWriter, options)
 	})
 	return err
